@@ -80,7 +80,10 @@ type Handlers struct {
 }
 
 type PatternDef struct {
-	Pattern string   `json:"pattern"` // relative to the service name
+	Mounts  []string `json:"mounts,omitempty"` // mount paths, outermost first, of the sub-Mux the pattern is registered on
+	Route   bool     `json:"route,omitempty"`  // that sub-Mux is created with Route (else NewMux + Mount)
+	Late    bool     `json:"late,omitempty"`   // registered after its Mux was mounted
+	Pattern string   `json:"pattern"`          // relative to the service name / to its sub-Mux
 	Group   string   `json:"group,omitempty"`
 	H       Handlers `json:"h"`
 }
@@ -1006,6 +1009,11 @@ func buildService(d desc, rec *recorder) *res.Service {
 	if d.InCh > 0 {
 		s.SetInChannelSize(d.InCh)
 	}
+	type reg struct {
+		p PatternDef
+		h res.Handler
+	}
+	var regs []reg
 	for _, p := range d.Patterns {
 		p := p
 		h := res.Handler{Type: res.ResourceType(typeBase + p.H.Pid), Group: p.Group}
@@ -1046,12 +1054,74 @@ func buildService(d desc, rec *recorder) *res.Service {
 				h.Auth[k] = func(r res.AuthRequest) { hc.runOuter(r.(*res.Request), sc) }
 			}
 		}
-		s.AddHandler(p.Pattern, h)
+		regs = append(regs, reg{p, h})
+	}
+	// sub-Muxes: one per distinct mount chain; handlers are added before or after mounting
+	muxes := map[string]*res.Mux{"": s.Mux}
+	routed := map[string]bool{}
+	var chains [][]string
+	for _, p := range d.Patterns {
+		if p.Route && len(p.Mounts) > 0 {
+			routed[strings.Join(p.Mounts, "/")] = true
+		}
+	}
+	for _, p := range d.Patterns {
+		for n := 1; n <= len(p.Mounts); n++ {
+			k := strings.Join(p.Mounts[:n], "/")
+			if _, seen := muxes[k]; !seen {
+				muxes[k] = nil
+				chains = append(chains, append([]string(nil), p.Mounts[:n]...))
+			}
+		}
+	}
+	addEarly := func(k string, m *res.Mux) {
+		for _, rg := range regs {
+			if !rg.p.Late && strings.Join(rg.p.Mounts, "/") == k {
+				m.AddHandler(rg.p.Pattern, rg.h)
+			}
+		}
+	}
+	addEarly("", s.Mux)
+	// Route creates and mounts in one go (outermost first); the others are NewMux + Mount
+	sort.SliceStable(chains, func(i, j int) bool { return len(chains[i]) < len(chains[j]) })
+	for _, c := range chains {
+		k := strings.Join(c, "/")
+		if !routed[k] {
+			muxes[k] = res.NewMux("")
+			addEarly(k, muxes[k])
+		}
+	}
+	for _, c := range chains {
+		k := strings.Join(c, "/")
+		if routed[k] {
+			muxes[k] = muxes[strings.Join(c[:len(c)-1], "/")].Route(c[len(c)-1], func(m *res.Mux) { addEarly(k, m) })
+		}
+	}
+	// mount inner ones first or last, both are allowed: longest chains first for even pattern counts
+	sort.SliceStable(chains, func(i, j int) bool {
+		if len(d.Patterns)%2 == 0 {
+			return len(chains[i]) > len(chains[j])
+		}
+		return len(chains[i]) < len(chains[j])
+	})
+	for _, c := range chains {
+		if !routed[strings.Join(c, "/")] {
+			muxes[strings.Join(c[:len(c)-1], "/")].Mount(c[len(c)-1], muxes[strings.Join(c, "/")])
+		}
+	}
+	for _, rg := range regs {
+		if rg.p.Late {
+			muxes[strings.Join(rg.p.Mounts, "/")].AddHandler(rg.p.Pattern, rg.h)
+		}
 	}
 	s.AddHandler(probeName, res.Handler{Type: res.ResourceType(typeBase + 200),
 		Call: map[string]res.CallHandler{"ping": func(r res.CallRequest) { r.OK("pong") }},
 		Get:  func(r res.GetRequest) { r.Model(map[string]string{"p": "q"}) }, Access: res.AccessGranted})
 	return s
+}
+
+func fullPattern(svc string, p PatternDef) string {
+	return fullName(svc, strings.Join(append(append([]string{}, p.Mounts...), p.Pattern), "."))
 }
 
 func fullName(svc, local string) string {
@@ -1066,17 +1136,26 @@ func routeTerm(s *res.Service, d desc, rq Request) string {
 	if len(rq.Parts) != 3 {
 		return "None"
 	}
-	mh := s.GetHandler(rq.Parts[1])
+	var mh *res.Match
+	func() {
+		// a routing that panics on the name is observed on the request itself (the service dies); here it is "no answer"
+		defer func() { recover() }()
+		mh = s.GetHandler(rq.Parts[1])
+	}()
 	if mh == nil {
 		return "None"
 	}
 	pid := int(mh.Handler.Type) - typeBase
 	for _, p := range d.Patterns {
 		if p.H.Pid == pid {
-			if d.Kind != "single" {
-				// concurrent variants: params and group are derived from the request's own subject with
-				// Pattern.Values (C17), independently of the Mux; the quiescent Mux must agree
-				if vals, ok := res.Pattern(fullName(d.Service, p.Pattern)).Values(rq.Parts[1]); ok {
+			{
+				// Which pattern a name resolves to is the routing black box (C06); what the handler must then see
+				// is not: path params and group are derived from the request's own subject and the FULL pattern
+				// as registered (service name, mount paths, pattern) with Pattern.Values (C17), and the group string
+				if vals, ok := res.Pattern(fullPattern(d.Service, p)).Values(rq.Parts[1]); ok {
+					if len(vals) == 0 {
+						vals = nil
+					}
 					group := rq.Parts[1]
 					if p.Group != "" {
 						group = p.Group
@@ -1084,7 +1163,7 @@ func routeTerm(s *res.Service, d desc, rq Request) string {
 							group = strings.Replace(group, "${"+k+"}", v, -1)
 						}
 					}
-					if AMap(vals) != AMap(mh.Params) || group != mh.Group {
+					if d.Kind != "single" && (AMap(vals) != AMap(mh.Params) || group != mh.Group) {
 						concViolMu.Lock()
 						concViol = append(concViol, fmt.Sprintf("quiescent Mux.GetHandler(%q) gives params %v group %q, the subject gives %v %q", rq.Parts[1], mh.Params, mh.Group, vals, group))
 						concViolMu.Unlock()
@@ -2105,6 +2184,72 @@ func malformed(r *Rng, prop string, seq int, k int) desc {
 	return d
 }
 
+// handler sets with mounted sub-Muxes (depth 1-2, Mount and Route) and parent patterns whose token at the mount
+// position is a placeholder; request names that match inside a mount, that enter a mount path but only match a
+// pattern of the parent (routing falls back out of the mount), and near misses
+func genMountCase(r *Rng, prop string, seq, k int) (desc, string) {
+	svc := r.Pick([]string{"test", "test", "", "lib.v2"})
+	mt := []string{r.Pick([]string{"admin", "sys", "call", "v2"})}
+	if r.Chance(35) {
+		mt = append(mt, r.Pick([]string{"v2", "get", "zone"}))
+	}
+	M := strings.Join(mt, ".")
+	deep := r.Pick([]string{"deep", "new", "x1"})
+	fill := "" // placeholders of the parent covering the extra tokens of a two-token mount path
+	fillName := ""
+	if len(mt) == 2 {
+		fill, fillName = "$b.", "zone9."
+	}
+	grp := func(opts ...string) string { return opts[r.Intn(len(opts))] }
+	route1, route2 := r.Chance(40), r.Chance(40)
+	pid := 0
+	mk := func(mounts []string, route bool, pattern, group string) PatternDef {
+		p := PatternDef{Mounts: mounts, Route: route, Late: r.Chance(30), Pattern: pattern, Group: group, H: loadHandlers(r, pid, pid%3 == 0)}
+		pid++
+		return p
+	}
+	in1 := []string{M}
+	in2 := []string{M, deep}
+	pats := []PatternDef{
+		mk(nil, false, "$tenant."+fill+"$section.settings", grp("", "g.${tenant}", "${section}.${tenant}", "fixed")), // 0
+		mk(in1, route1, "user.$id", grp("", "u.${id}")),                                                              // 1
+		mk(in1, route1, "user.$id.roles", grp("", "r.${id}")),                                                        // 2
+		mk(in1, route1, "$x.$y.info", grp("", "${y}-${x}")),                                                          // 3
+		mk(in2, route2, "$k.leaf", grp("", "${k}")),                                                                  // 4
+		mk(in2, route2, "fixed", ""),                                                                                 // 5
+		mk(nil, false, "$tenant."+fill+"ui.$page", grp("", "p.${page}.${tenant}")),                                   // 6
+	}
+	if r.Chance(50) {
+		pats = append(pats, mk(nil, false, "$w.>", grp("", "w.${w}"))) // 7
+	}
+	if r.Chance(40) {
+		pats = append(pats, mk(in1, route1, "$x.>", grp("", "${x}"))) // falls back inside the first mount only
+	}
+	shapes := []struct {
+		local string
+		tag   string
+	}{
+		{M + ".ui.settings", "mount-fallback"}, // enters the mount, matches the parent's pattern only
+		{M + ".user.42", "mounted"},
+		{M + ".user.42.roles", "mounted"},
+		{M + "." + deep + ".k1.leaf", "mounted"},
+		{M + "." + deep + ".zz.info", "mount-fallback"}, // enters the inner mount, matches a pattern of the outer one
+		{M + ".ui.other", "mount-fallback"},
+		{"other." + fillName + "ui.settings", "mounted"}, // never enters the mount
+		{M + ".user", "near-miss"},
+		{M + "." + deep + ".k1.leaf.x", "near-miss"},
+		{M + "." + deep + ".fixed", "mounted"},
+		{M + "." + deep + ".zz.settings", "near-miss"},
+		{M + ".user.settings", "mount-fallback"}, // literal child inside the mount fails at the last token
+		{M + "x.ui.settings", "near-miss"},
+		{mt[0] + "." + fillName + "section7.settings", "mount-fallback"},
+	}
+	sh := shapes[k%len(shapes)]
+	rname := fullName(svc, sh.local)
+	rq := loadRequest(r, fmt.Sprintf("_INBOX.%s.m%d", prop, seq), rname, 7000+seq, []string{"set", "login", "set", "zzz"}, r.Intn(9))
+	return desc{Kind: "single", Service: svc, Patterns: pats, Req: rq}, sh.tag
+}
+
 // payloads around the border of "is JSON": a valid payload followed by more bytes, two values, whitespace variants
 var trailers = []struct {
 	pre, post string
@@ -2376,6 +2521,7 @@ func main() {
 	}
 	r := NewRng(o.Seed*2 + uint64(len(*prop)) + uint64((*prop)[2]))
 	var ds []desc
+	mountTag := map[int]string{}
 	dist := map[string]int{}
 	seq := 0
 	add := func(d desc) {
@@ -2485,6 +2631,16 @@ func main() {
 		}
 		for k := 0; k < nt; k++ {
 			add(genTrailing(r, *prop, seq, k))
+		}
+		// (b'') mounted sub-Muxes and parent patterns with a placeholder at the mount position
+		nm := 9 * 14
+		if o.Tier == "thorough" {
+			nm = 150 * 14
+		}
+		for k := 0; k < nm; k++ {
+			d, tag := genMountCase(r, *prop, seq, k)
+			mountTag[len(ds)] = tag
+			add(d)
 		}
 		// (c) malformed subjects / no reply subject
 		for k := 0; k < 10; k++ {
@@ -2604,6 +2760,10 @@ func main() {
 		if ne {
 			c.Tags = append(c.Tags, "nil-error")
 		}
+		if t := mountTag[i]; t != "" {
+			c.Tags = append(c.Tags, "mounts", t)
+			dist["mounts:"+t]++
+		}
 		if be {
 			c.Tags = append(c.Tags, "bad-error-panic")
 			dist["bad-error-panic"]++
@@ -2674,6 +2834,6 @@ func main() {
 			}
 		}
 	}
-	rule := "one request per case against a freshly served res.Service on a recording connection (scripts of 0-6 actions per handler, panic values incl. real runtime errors: index out of range, nil map write, nil dereference, divide by zero, failed type assertion; product of request type x method case {named,*,none,new with/without New handler,empty} x resource matched/unmatched x handler present/absent x payload {full,partial,empty,{},null,6 undecodable texts} + random shapes + malformed subjects + 2 rounds of 200 concurrent requests over 20 resource patterns, each request on its own resource name with payload values unique to it, handlers yielding before they read, compared per reply subject and per-request handler observations + 2 rounds of 200 requests on patterns with 12 path params routed while 4 goroutines call Service.With / Service.Resource on other names of the same token count (the load rounds have 3 such goroutines too); params and group expected in concurrent cases are derived from the subject with Pattern.Values + payloads that start with a valid JSON value (trailing bytes, two concatenated values, NUL/BOM/whitespace variants; validity judged by json.Valid on the bytes sent) + 6 queue-flood scenarios (in-channel size 1/2/4, 1-2 workers all held in stopped handlers, 40 requests on distinct and repeated resources delivered meanwhile, 6 more after release; thorough also the default 1024/32 with 3000 pending) + 60 overlap pairs: request A stopped inside its handler before (or between two) reads of its fields until request B on another worker group was processed completely, half of them under GOMAXPROCS=1); non-trivial = well-formed request whose pattern carries a non-empty script or whose payload does not decode; distinct by the whole case term"
+	rule := "one request per case against a freshly served res.Service on a recording connection (scripts of 0-6 actions per handler, panic values incl. real runtime errors: index out of range, nil map write, nil dereference, divide by zero, failed type assertion; product of request type x method case {named,*,none,new with/without New handler,empty} x resource matched/unmatched x handler present/absent x payload {full,partial,empty,{},null,6 undecodable texts} + random shapes + malformed subjects + 2 rounds of 200 concurrent requests over 20 resource patterns, each request on its own resource name with payload values unique to it, handlers yielding before they read, compared per reply subject and per-request handler observations + 2 rounds of 200 requests on patterns with 12 path params routed while 4 goroutines call Service.With / Service.Resource on other names of the same token count (the load rounds have 3 such goroutines too); params and group expected in concurrent cases are derived from the subject with Pattern.Values + payloads that start with a valid JSON value (trailing bytes, two concatenated values, NUL/BOM/whitespace variants; validity judged by json.Valid on the bytes sent) + 126 requests on handler sets with sub-Muxes mounted (Mount/Route, depth 1-2, handlers added before/after mounting) under parent patterns that have placeholders at the mount position: names matching inside a mount, names entering a mount path but matching only a pattern of the parent / of the outer mount, near misses; expected path params and group always derived from subject + full registered pattern, never from the Mux + 6 queue-flood scenarios (in-channel size 1/2/4, 1-2 workers all held in stopped handlers, 40 requests on distinct and repeated resources delivered meanwhile, 6 more after release; thorough also the default 1024/32 with 3000 pending) + 60 overlap pairs: request A stopped inside its handler before (or between two) reads of its fields until request B on another worker group was processed completely, half of them under GOMAXPROCS=1); non-trivial = well-formed request whose pattern carries a non-empty script or whose payload does not decode; distinct by the whole case term"
 	Emit(o, *prop, "From GoRes Require Import Run.Run_"+*prop+".", "rcase", rule, cases, dist, map[string]interface{}{"children_crashed": dist["crashed"], "racing_lookups_made": totalLookups}, impl, 250)
 }
